@@ -934,11 +934,20 @@ func layoutsWith(mech string, allowed []string) []string {
 	return out
 }
 
+// spread draws an index in [0,n) that is uniform over the list: rapid's integer
+// generators favour small values and the ends of a range, which would
+// concentrate the cases on the alphabetically first functions; the drawn number
+// is hashed first. (Order in these lists carries no notion of "simpler", so
+// nothing is lost for shrinking.)
+func spread(t *rapid.T, label string, n int) int {
+	return int(vkit.Hash64(strconv.FormatUint(rapid.Uint64().Draw(t, label), 10)) % uint64(n))
+}
+
 func gen(t *rapid.T) Case {
 	ct := getCatalogue()
 	poolOnce.Do(func() { pool = systematic(false) })
 	if rapid.Bool().Draw(t, "systematic") {
-		c := pool[rapid.IntRange(0, len(pool)-1).Draw(t, "index")]
+		c := pool[spread(t, "index", len(pool))]
 		c.Form = rapid.SampledFrom(forms).Draw(t, "form")
 		if c.Form == "value" && (c.Method != "" || ct.slots[c.Slot].F.Pkg == "") {
 			c.Form = "direct"
@@ -946,11 +955,11 @@ func gen(t *rapid.T) Case {
 		return c
 	}
 	var c Case
-	c.Slot = rapid.SampledFrom(ct.ids).Draw(t, "slot")
+	c.Slot = ct.ids[spread(t, "slot", len(ct.ids))]
 	s := ct.slots[c.Slot]
 	c.Variant = rapid.SampledFrom(s.Variants).Draw(t, "variant")
 	if len(s.Methods) > 0 && rapid.Bool().Draw(t, "use-method") {
-		c.Method = s.Methods[rapid.IntRange(0, len(s.Methods)-1).Draw(t, "method")].Name
+		c.Method = s.Methods[spread(t, "method", len(s.Methods))].Name
 	}
 	mech := rapid.SampledFrom(genMechs).Draw(t, "mech")
 	lays := layoutsWith(mech, layoutsOf(s))
